@@ -68,6 +68,9 @@ def statement(kind, k):
         return ['t(%d)' % k], '', '%d' % k, True, None
     if kind == 'strexpr':
         return ['"s%%d" %% t(%d)' % k], '', "'s%d'" % k, True, None
+    if kind == 'nlstr':
+        # a value whose str() and repr() differ by more than the surrounding quotes
+        return ['"a\\nb%%d" %% t(%d)' % k], '', "'a\\nb%d'" % k, True, None
     if kind == 'both':
         return ['pv(t(%d))' % k], 'p%d\n' % k, "'v%d'" % k, True, None
     if kind == 'multi':
@@ -111,7 +114,7 @@ def statement(kind, k):
     raise KeyError(kind)
 
 
-PLAIN_KINDS = ['assign', 'print', 'expr', 'strexpr', 'both', 'multi', 'multiexpr', 'multiprint', 'compound',
+PLAIN_KINDS = ['assign', 'print', 'expr', 'strexpr', 'nlstr', 'both', 'multi', 'multiexpr', 'multiprint', 'compound',
                'funcdef', 'tripstr', 'print2']
 
 
